@@ -63,6 +63,12 @@ class Run:
         self.exhaustive = None
         self.tlc_runs = []
         self._viol_printed = 0
+        import glob
+        for f in glob.glob(os.path.join(REPLAYS, pid, f'{tier}-*.json')):      # replay files of earlier runs of this tier
+            try:
+                os.remove(f)
+            except OSError:
+                pass
 
     # ---- bookkeeping -------------------------------------------------------------------
     def add_tlc(self, res, label=None):
